@@ -415,8 +415,10 @@ def main():
         a = py_save(t, nv)
         if len(a) > (6000 if thorough else 1500):
             continue
-        casesB.append(f"load {name} {hexs0(a)}")
-        casesB.append(f"load+ {name} {hexs0(a)}")
+        ntk = " ".join(toks(t, nv))
+        for line in (f"load {name} {hexs0(a)}", f"load+ {name} {hexs0(a)}"):
+            casesB.append(line)
+            expect[line] = f"ok {ntk} @{len(a)}"        # a valid archive loads to the value and is consumed entirely
         if name in serializable:
             casesB.append(f"sload {name} {hexs0(a)}")
             casesB.append(f"sload+ {name} {hexs0(a)}")
@@ -426,7 +428,9 @@ def main():
                 casesB.append(f"sload {name} {hexs0(m)}")
         # one archive object used twice (str() must restart at 0)
         ms2 = mutations(rng, a, False)
-        casesB.append(f"load2 {name} {hexs0(rng.choice(ms2))} {hexs0(a)}")
+        line = f"load2 {name} {hexs0(rng.choice(ms2))} {hexs0(a)}"
+        casesB.append(line)
+        expect[line] = f"ok {ntk} @{len(a)}"
         casesB.append(f"load2 {name} {hexs0(a)} {hexs0(rng.choice(ms2))}")
         # an archive of one type read as another type
         other = rng.choice(TYPES)
@@ -440,6 +444,10 @@ def main():
                 script.append(rng.choice(("s", "n s", "r%d" % L, "r%d" % L, "e r%d" % L, "n n r%d" % L, "r%d" % max(0, L + rng.choice((-1, 1, 4))))))
             script.append(rng.choice(("e", "n", "s", "r0", "r4", "e e", "z s e", "m n s", "z n")))
             casesB.append(f"ops {hexs0(a)} {' '.join(script)}")
+            # reset() / mode(load) rewind: the same reads must give the same answers again
+            head = " ".join(x for x in script[:-1] if "z" not in x and "m" not in x)
+            if head:
+                casesB.append(f"ops {hexs0(a)} {head} {rng.choice('zm')} {head}")
             ms = mutations(rng, a, False)
             casesB.append(f"ops {hexs0(rng.choice(ms))} {' '.join(script)}")
     for _ in range(6000 if thorough else 1200):
@@ -494,6 +502,9 @@ def main():
             if cs in expect and o != expect[cs]:
                 bad.append((k, "round trip / serialization differs from the value (python oracle)"))
         elif op in ("load", "sload", "load2"):
+            if cs in expect and o != expect[cs]:
+                bad.append((k, "a valid archive did not load to the value it was saved from (python oracle)"))
+                continue
             if op == "load2":
                 w = [w[0], w[1], w[3]]
             if o in ERRS:
@@ -508,8 +519,14 @@ def main():
                 else:
                     jl.append((k, f"J {w[1]} {w[2]} {ptr[1:]} {' '.join(ow[1:-1])}"))
         elif op == "ops":
+            ot = o.split()
+            rew = [i for i, x in enumerate(ot) if x in ("z", "m")]
+            sw = w[2:]
             if o.startswith("exception"):
                 bad.append((k, "exception other than archive_error"))
+            elif len(rew) == 1 and "err" not in ot and len(sw) % 2 == 1 and sw[:len(sw) // 2] == sw[len(sw) // 2 + 1:] \
+                    and ot[:rew[0]] != ot[rew[0] + 1:-1]:
+                bad.append((k, "after reset()/mode(load_from_archive) the same reads returned something else"))
             else:
                 n = 0 if w[1] == "-" else len(w[1]) // 2
                 try:
